@@ -1,6 +1,6 @@
 (* C13 — the parallel specification finder is total and its output is a matched pair.
    Statements only; the model is Parallel/Model.v + Parallel/InfoModel.v (bijection.py as it is since the
-   fix: commits a172a92 and 97589e3), tied to the code by the correspondence of harness/props/c13.py.
+   fix: commits a172a92, 97589e3 and 8a96a0c), tied to the code by the correspondence of harness/props/c13.py.
 
    THE CODE AS IT IS (all universes, all rule databases, all fuel):
    * C13_matched_pair, C13_matched_pair_eqpath   whatever find() returns, in either variant, is a matched
@@ -13,10 +13,11 @@
    * C13_eqpath_finder_never_raises, C13_eqpath_finder_total  the same for EqPathParallelSpecFinder, for every
                                 oracle that answers every question of _eq_path_matches (its answers come from
                                 EquivalenceRuleExtractor over the rule database, outside the model); the
-                                EqPath theorems hold both for the code as it is (pw = false) and with the
-                                proposed repair of the open finding F-C13e (pw = true: a second final walk
-                                compares the equivalence paths along every edge of the two maps — what the
-                                label-level notion of matched pair does not see);
+                                EqPath theorems hold both for the code as it is (pw = true, since fix 8a96a0c
+                                of the finding F-C13e: a second final walk compares the equivalence paths
+                                along every edge of the two maps — what the label-level notion of matched pair
+                                does not see) and for the code before that fix (pw = false; historic, no case
+                                of the harness runs it);
    * C13_first_search_sound     every entry the first search records in matching_info is a pair of
                                 candidate rules (same number of children, matching constructor classes)
                                 with a genuine permutation of the child positions, or the atom entry of two
